@@ -172,6 +172,12 @@ def ucell_numbers(u):
             abc = [abc[i] * (1.0 + al[i]) for i in range(3)] + [abc[3 + i] + float(np.degrees(al[3 + i])) for i in range(3)]
         lx, ly, lz, xy, xz, yz = gens.abc_to_lammps(*abc)
         V = np.array([[lx, 0.0, 0.0], [xy, ly, 0.0], [xz, yz, lz]], dtype=float)
+        if al:
+            # Box zeroes every component below 1e-9 of the largest one ("Zero out near zero terms" in the vects setter).  The cell
+            # handed over stays off that threshold: what is below 2e-9 is exactly zero already (the more symmetric cell, only its
+            # lengths differ), so that the Box holds the cell of the case and the atoms sit where the case puts them
+            r = np.abs(V) / np.abs(V).max()
+            V[(r > 0.0) & (r < 2e-9)] = 0.0
     if u.get('lh'):
         V[2] = -V[2]
     if u.get('sym'):
@@ -381,6 +387,8 @@ def ucell_labels(u):
             labs.add('sym_rows')
         elif sy['cols'] == [0, 1, 2] and min(sy['sg']) < 0 and not u.get('rot'):
             labs.add('sym_tri_neg')          # still lower triangular, negative diagonal entries
+        if sy['rows'] == [2, 1, 0] and sy['cols'] == [2, 1, 0]:
+            labs.add('sym_upper')            # upper triangular
     if u.get('edge'):
         labs.add('edge')
     if u.get('half'):
@@ -693,7 +701,7 @@ SCALE_K = (0,) * 32 + (-10,) * 10 + (-12, -11, -9, -8, -7, -6, -5, -4, -3, -2, -
 SCALE_K_WHOLE = (0,) * 32 + (1, 2, 3, 4, 5, 6) * 5 + (1, 6)
 assert len(SCALE_K) == 64 and len(SCALE_K_WHOLE) == 64
 # classes E / G (see gens_c04): [0] sym on/off, [1..3] sym, [4] almost on/off, [5..10] almost, [11] half-origin on/off, [12] edge on/off
-_xhdr = st.lists(_byte, min_size=13, max_size=13)
+_xhdr = st.binary(min_size=13, max_size=13)
 _coords = [None] + [st.lists(_byte, min_size=3 * n, max_size=3 * n) for n in range(1, 6)]
 NATOMS = (1, 2, 2, 3, 3, 3, 4, 4, 5, 5)
 _rot = gens.rotations(min_angle=1.0)
@@ -838,7 +846,7 @@ def ucells(draw, family=None, far_origin=True, allow_lh=True, nearface=None, max
              'types': [1 + int(3 * _jit(sd, 200 + i)) % 3 for i in range(len(atoms))],
              'vec': [[round(10.0 * _jit(sd, 300 + 3 * i + c) - 5.0, 3) for c in range(3)] for i in range(len(atoms))],
              'whole': True, 'scale': 10.0 ** SCALE_K_WHOLE[hd[14] % 64]}
-        if xh[0] % 4 == 0:
+        if xh[0] % 4 == 1:
             # exact signed permutations keep whole numbers whole (proper ones only: whole cells are right-handed)
             u['sym'] = G4.sym_of(xh[1], xh[2], xh[3], True, False)
         return u
@@ -849,7 +857,7 @@ def ucells(draw, family=None, far_origin=True, allow_lh=True, nearface=None, max
     cs = draw(_coords[n])
     atoms = [[_coord_of(cs[3 * i + c], sd, 3 * i + c) for c in range(3)] for i in range(n)]
     nf = nearface is not None
-    edge = (not nf) and xh[12] % 8 == 0
+    edge = (not nf) and xh[12] % 6 == 1
     if edge:
         # class E: atoms 1e-12 .. 10^-edge_min (relative) from a face of the UNIT cell, either side (one coordinate in three)
         for i in range(n):
@@ -883,7 +891,7 @@ def ucells(draw, family=None, far_origin=True, allow_lh=True, nearface=None, max
         elif d_origin >= 6:
             orel = [round(1.9 * _u01(hd[6 + i], sd, 6 + i) - 0.95, 3) for i in range(3)]
     half = False
-    if origin and xh[11] % 10 == 0:
+    if origin and xh[11] % 8 == 1:
         # class G: origin at exact half lattice vectors (ties of every rounding to the nearest lattice vector)
         orel = [0.5 * (hd[6 + i] % 11 - 5) for i in range(3)] if far_origin else [0.5 * (hd[6 + i] % 3 - 1) for i in range(3)]
         if not any(x % 1.0 for x in orel):
@@ -899,9 +907,9 @@ def ucells(draw, family=None, far_origin=True, allow_lh=True, nearface=None, max
         u['edge'] = True
     if half:
         u['half'] = True
-    if rot is None and xh[0] % 5 == 0:
+    if rot is None and xh[0] % 4 == 1:
         u['sym'] = G4.sym_of(xh[1], xh[2], xh[3], not sensitive, allow_lh)
-    if not nf and xh[4] % 6 == 0:
+    if not nf and xh[4] % 5 == 1:
         u['almost'] = G4.almost_of(xh[5:11], sensitive)
     return u
 
@@ -1547,8 +1555,11 @@ def _rotate_call(am, system, case, labels, what, det, keep=None, plain=False):
     return out
 
 
-def _judge_rotate(out, snap, V, o, pos0, U, what, sc, labels=None):
-    """the rotate oracle: out = (system, transform) is the unit cell (V, o, pos0; per-atom data in snap) re-expressed along U.V"""
+def _judge_rotate(out, snap, V, o, pos0, U, what, sc, labels=None, almost=False):
+    """the rotate oracle: out = (system, transform) is the unit cell (V, o, pos0; per-atom data in snap) re-expressed along U.V.
+    almost: the unit cell is of class E (1e-12 .. 1e-3 from a more symmetric one): a vector of the new cell can then have a component
+    below 1e-9 of its largest one, which Box sets to zero (see ucell_numbers); the volume of a flat new cell follows that change of
+    up to 1e-9 max|W| in first order, |dvol| / vol <= 3e-9 cond(W) - the cells of the other classes have no such components"""
     res, T = out
     det = idet(U.tolist())
     T = require_rotation(T, what)
@@ -1570,7 +1581,7 @@ def _judge_rotate(out, snap, V, o, pos0, U, what, sc, labels=None):
     require(e <= tolB, lambda: '%s: result box rows\n%r\nare not T.(uvws.vects) =\n%r\n(max diff %.3g, tol %.3g)' % (what, B, expB, e, tolB))
     vol0 = abs(float(np.linalg.det(V)))
     vol = abs(float(np.linalg.det(B)))
-    require(abs(vol - n * vol0) <= (1e-8 + 40 * EPS * condW ** 2) * n * vol0,
+    require(abs(vol - n * vol0) <= (1e-8 + 40 * EPS * condW ** 2 + (4e-9 * condW if almost else 0.0)) * n * vol0,
             lambda: '%s: volume %.12g, expected |det| x original = %d x %.12g' % (what, vol, n, vol0))
     tol = match_tol(W, o, bo, res.atoms.pos, unit=sc)
     motif = cm.Motif(V, o, pos0, tol)
@@ -1626,7 +1637,7 @@ def _oracle_rotate(case):
         require(args_frozen([(nm, a)])[nm] == frozen[nm],
                 lambda: '%s: the argument %s was modified by the call (it is no longer what the caller handed in): %r' % (what, nm, a))
     require_untouched(sys0, snap, what)
-    _judge_rotate(out, snap, V, o, pos0, U, what, sc, labels)
+    _judge_rotate(out, snap, V, o, pos0, U, what, sc, labels, almost=bool(u.get('almost')))
     n = abs(det)
     if det < 0:
         labels.add('detneg')
@@ -1644,7 +1655,7 @@ def _oracle_rotate(case):
             return _rotate_call(am, system, case, labels, what + ' [called again]', det, keep, plain=True)
 
         def judge(out2, M2, snap2, note):
-            _judge_rotate(out2, snap2, M2.V, M2.o, M2.pos, U, what + note, sc)
+            _judge_rotate(out2, snap2, M2.V, M2.o, M2.pos, U, what + note, sc, almost=bool(u.get('almost')))
         run_post(PostCtx(am, case, labels, what, sys0, M, snap, out, named[-(1 + len(_rotate_kwargs(opt))):], call, judge,
                          'fixed' if u.get('nearface') else 'full'))
     return labels
@@ -2141,26 +2152,163 @@ def _oracle_centering(case, state):
     return labels
 
 
+# ----------------------------------------------------------------------------- options (class H: enumerated, not sampled)
+#
+# Every operation of this property with every value of its options, as ORDERED pairs (thorough: also triples) in one process: the
+# conversions share the setting tables of tools/miller.py and the return_transform / check_* switches, rotate shares its tol ladder and
+# the Miller-Bravais reduction, all of them end in supersize + normalize.  For a pair (Y, X): X is called on its fixture and its answer
+# entered in a ledger, Y is called on its own fixture, X is called again (same answer, the first one bit for bit what it was), and then X
+# is judged IN FULL by the oracle of its clause - after Y has run in this process.
+
+def _fixture(family, atoms, types):
+    return {'family': family, 'abc': _family_abc(family, [0.31, 0.42, 0.63], [0.23, 0.52, 0.71]), 'rot': None, 'lh': False,
+            'orel': [0.0, 0.0, 0.0], 'atoms': atoms, 'types': types,
+            'vec': [[round(0.5 * i - 1.0 + 0.1 * c, 3) for c in range(3)] for i in range(len(atoms))], 'scale': 1.0}
+
+
+def _options_ops():
+    ops = []
+    motif, mtypes = [[0.0, 0.0, 0.0], [0.21, 0.34, 0.47]], [1, 2]
+    for setting in SETTINGS + ('t',):
+        real = 't1' if setting == 't' else setting
+        cent = CENTERING[real]
+        atoms = [[(m[c] + ct[c]) % 1.0 for c in range(3)] for m in motif for ct in cent]
+        types = [t for t in mtypes for _ in cent]
+        for rt in (True, False):
+            u = _fixture(SETTING_FAMILIES[real][0], atoms, types)
+            u['vec'] = [u['vec'][i // len(cent)] for i in range(len(atoms))]
+            ops.append({'clause': 'centering', 'name': 'c2p(%s%s)' % (setting, '' if rt else ', no transform'), 'rt': rt,
+                        'case': {'ucell': u, 'setting': real, 'direction': 'c2p2c', 'basis': True, 'generic_t': setting == 't',
+                                 'entry': 'method', 'forms': None, 'hist': [], 'cf': True, 'rt': rt, 'ss': None}})
+    for setting in SETTINGS:
+        for rt in (True, False):
+            u = _fixture('triclinic', [list(m) for m in motif], list(mtypes))
+            ops.append({'clause': 'centering', 'name': 'p2c(%s%s)' % (setting, '' if rt else ', no transform'), 'rt': rt,
+                        'case': {'ucell': u, 'setting': setting, 'direction': 'p2c2p', 'basis': True, 'generic_t': False,
+                                 'entry': 'function', 'forms': None, 'hist': [], 'cf': True, 'rt': rt, 'ss': None}})
+    for fam, uv in (('cubic', CLASSIC[2]), ('hexagonal', [[2, -1, -1, 0], [0, 1, -1, 0], [0, 0, 0, -1]])):
+        for opt in (None, 'tol_list', 'tol_tuple', 'tol_array', 'no_transform', 'tol_list_no_transform'):
+            u = _fixture(fam, [[0.0, 0.0, 0.0], [0.5, 0.5, 0.0], [0.21, 0.34, 0.47]], [1, 1, 2])
+            ops.append({'clause': 'rotate', 'name': 'rotate(%s, %s)' % ('3x4' if len(uv[0]) == 4 else '3x3', opt), 'rt': not (opt or '').endswith('no_transform'),
+                        'case': {'ucell': u, 'uvws': uv, 'form': 'list' if opt != 'tol_array' else 'array', 'opt': opt, 'forms': None, 'hist': []}})
+    for sizes in ([{'f': 'int', 'v': 2}, {'f': 'int', 'v': -1}, {'f': 'tuple', 'v': [-1, 1]}],
+                  [{'f': 'np', 'v': -2}, {'f': 'np32', 'v': 2}, {'f': 'nptuple', 'v': [-1, 2]}],
+                  [{'f': 'int', 'v': 1}, {'f': 'int', 'v': 1}, {'f': 'int', 'v': 1}]):
+        u = _fixture('monoclinic', [[0.0, 0.0, 0.0], [0.21, 0.34, 0.47]], [1, 2])
+        ops.append({'clause': 'supersize', 'name': 'supersize(%s)' % ', '.join(str(z['v']) for z in sizes), 'rt': True,
+                    'case': {'ucell': u, 'sizes': sizes, 'forms': None, 'hist': []}})
+    return ops
+
+
+OPT_OPS = _options_ops()
+_OPT_CENT = [i for i, op in enumerate(OPT_OPS) if op['clause'] == 'centering']
+_OPT_REST = [i for i, op in enumerate(OPT_OPS) if op['clause'] != 'centering']
+
+
+def options_cases(tier):
+    cases = [{'x': i, 'y': [j]} for i in _OPT_CENT for j in _OPT_CENT] + [{'x': i, 'y': [j]} for i in _OPT_REST for j in _OPT_REST]
+    # the two groups against one another: every operation of one group with four of the other, both orders (thorough: all)
+    step = 1 if tier == 'thorough' else 9
+    for a, i in enumerate(_OPT_CENT):
+        for b, j in enumerate(_OPT_REST):
+            if tier == 'thorough' or (a + 2 * b) % step == 0:
+                cases.append({'x': i, 'y': [j]})
+                cases.append({'x': j, 'y': [i]})
+    if tier == 'thorough':
+        full = [i for i in _OPT_CENT if OPT_OPS[i]['rt']]
+        cases += [{'x': i, 'y': [j, k]} for i in full for j in full for k in full]
+    return cases
+
+
+def _options_raw(am, op):
+    """-> system, zero-argument callable making the user-level call of the operation with its options"""
+    case = op['case']
+    system, M, snap = prepare(am, case, set())
+    if op['clause'] == 'supersize':
+        return system, lambda: (system.supersize(*[_size_arg(sz)[0] for sz in case['sizes']]),)
+    if op['clause'] == 'rotate':
+        kw = dict(return_transform=True) if op['rt'] else {}
+
+        def call():
+            r = system.rotate(_uvws_arg(case['uvws'], case['form']), **dict(kw, **_rotate_kwargs(case.get('opt'))))
+            return r if isinstance(r, tuple) else (r,)
+        return system, call
+    style = 'conventional_to_primitive' if case['direction'] == 'c2p2c' else 'primitive_to_conventional'
+    given = 't' if case.get('generic_t') else case['setting']
+
+    def call():
+        r = _dump(am, system, style, case['entry'], setting=given, **(dict(return_transform=True) if op['rt'] else {}))
+        return r if isinstance(r, tuple) else (r,)
+    return system, call
+
+
+_OPT_ORACLES = {}
+
+
+def oracle_options(case):
+    import atomman as am
+    X = OPT_OPS[case['x']]
+    others = [OPT_OPS[j] for j in case['y']]
+    what = '%s, then %s, then %s again' % (X['name'], ', '.join(Y['name'] for Y in others), X['name'])
+    led = G4.Ledger()
+    sx, call_x = _options_raw(am, X)
+    out = call_x()
+    led.add('the first answer of ' + X['name'], out)
+    led.add('the system ' + X['name'] + ' was called on', sx)
+    fx = G4.freeze(out)
+    for Y in others:
+        sy, call_y = _options_raw(am, Y)
+        led.add('the answer of ' + Y['name'], call_y())
+        led.add('the system ' + Y['name'] + ' was called on', sy)
+        led.verify('the call ' + Y['name'], what)
+    out2 = call_x()
+    k = G4.first_difference(fx, G4.freeze(out2), bitwise=False)
+    require(k is None, lambda: '%s: the second answer differs from the first (%s)' % (what, k))
+    pr = G4.share_memory(out, out2)
+    require(pr is None, lambda: '%s: the two answers share memory (%s / %s)' % (what, pr[0], pr[1]))
+    led.add('the second answer of ' + X['name'], out2)
+    led.verify('the second call of ' + X['name'], what)
+    # the full oracle of the clause, after the other operations have run in this process
+    if not _OPT_ORACLES:
+        _OPT_ORACLES.update(supersize=_oracle_supersize, rotate=_oracle_rotate, centering=_oracle_centering_keyed)
+    try:
+        full = set(_OPT_ORACLES[X['clause']](X['case']))
+    except Violation as v:
+        raise Violation('%s [judged after %s had been called in the same process]' % (v.detail, ', '.join(Y['name'] for Y in others)), key=v.key) from None
+    require('refusal' not in full, lambda: '%s: the conversion refused its fixture' % what)
+    led.verify('the judged call of ' + X['name'], what)
+    labels = {'x_' + X['clause'], 'y_' + others[-1]['clause'], 'same_clause' if X['clause'] == others[-1]['clause'] else 'cross_clause'}
+    if not X['rt'] or not all(Y['rt'] for Y in others):
+        labels.add('no_transform')
+    if len(others) > 1:
+        labels.add('triple')
+    if any(Y is not X for Y in others):
+        labels.add('nt')
+    return labels
+
+
 CLAUSES = [
-    Clause('supersize', oracle_supersize, supersize_cases, quick=7000, thorough=120000,
+    Clause('supersize', oracle_supersize, supersize_cases, quick=6200, thorough=130000,
            min_share={'nt': 0.3, 'onface': 0.3, 'two_sided': 0.12, 'arg_np': 0.08, 'mults_distinct': 0.15, 'origin_small': 0.12,
                       'multitype': 0.3, 'hist': 0.18, 'hist_origin': 0.06, 'forms': 0.28, 'whole': 0.05,
                       'scaled': 0.22, 'scale_1': 0.22, 'scale_si': 0.055, 'scale_small': 0.15, 'scale_big': 0.08},
            desc='supersize: count, box, origin, volume; every replica maps back onto one original atom with its type/tag/vector, each original N times, no coincidences; all input forms, after histories'),
-    Clause('rotate', oracle_rotate, rotate_cases, quick=20000, thorough=300000,
+    Clause('rotate', oracle_rotate, rotate_cases, quick=17500, thorough=330000,
            min_share={'nt': 0.4, 'onface': 0.3, 'detneg': 0.2, 'hex4': 0.05, 'bigdet': 0.2, 'nearface': 0.05,
                       'origin_small': 0.12, 'lefthanded': 0.03, 'rigid_rot': 0.08, 'multitype': 0.3, 'form_float': 0.06,
                       'hist': 0.18, 'hist_origin': 0.06, 'forms': 0.27, 'whole': 0.04, 'opt': 0.15,
                       'scaled': 0.22, 'scale_1': 0.22, 'scale_si': 0.06, 'scale_small': 0.15, 'scale_big': 0.08},
            desc='rotate: proper rotation returned, box = T.(uvws.vects), LAMMPS form, atoms inside, count/volume x|det|, map-back through T with multiplicity |det|; all input forms and options, after histories'),
-    Clause('refusal', oracle_refusal, refusal_cases, quick=2500, thorough=30000,
+    Clause('refusal', oracle_refusal, refusal_cases, quick=2300, thorough=32000,
            min_share={'nt': 0.9, 'coplanar': 0.08, 'nonint': 0.09, 'parallel': 0.05, 'shape': 0.05, 'hist': 0.2, 'forms': 0.22,
                       'scaled': 0.2, 'scale_1': 0.22, 'scale_si': 0.05, 'scale_small': 0.15, 'scale_big': 0.06},
            desc='coplanar / parallel / non-integer / wrong-shape vector sets raise the documented ValueError and leave the system untouched (whatever its history)'),
-    Clause('centering', oracle_centering, centering_cases, quick=6500, thorough=100000,
+    Clause('centering', oracle_centering, centering_cases, quick=5700, thorough=110000,
            min_share={'nt': 0.45, 'c2p2c': 0.3, 'p2c2p': 0.15, 'setting_t1': 0.07, 'setting_t2': 0.07, 'setting_f': 0.08,
                       'nobasis': 0.12, 'multitype': 0.3, 'hist': 0.15, 'hist_origin': 0.04, 'forms': 0.24, 'entry_function': 0.09,
                       'scaled': 0.22, 'scale_1': 0.22, 'scale_si': 0.06, 'scale_small': 0.16, 'scale_big': 0.06},
            max_share={'refusal': 0.05},
            desc='conventional<->primitive conversions for p,a,b,c,i,f,t1,t2: same crystal, primitive lattice = centred lattice, N/k atoms, and the two conversions undo one another; all input forms, both entry points, after histories'),
+    Clause('options', oracle_options, enumerate=options_cases,
+           desc='every operation with every value of its options (9+8 settings x return_transform, rotate tol forms x return_transform x 3x3 / 3x4, supersize multiplier forms) as ordered pairs (thorough: triples of conversions) in one process: same answer before and after, earlier answers bit for bit what they were, then the full oracle of the clause'),
 ]
